@@ -167,6 +167,16 @@ def main():
             out0 = guarded(lambda: apply(t, emb, tr['act'], 0))
             n1 = last_allocs[0]
             counts['stored_calls'] = counts.get('stored_calls', 0) + 1
+            control_ok = False
+            try:
+                cp_ = P.proj(t, emb, is_set)
+                if not embeds_(cp_):
+                    jar.commit()
+                    t2 = minijar.Jar(jar.store).get(t._p_oid)
+                    control_ok = contents(P.proj(t2, emb, is_set)) == contents(cp_) and check(t2) == 'ok'
+                    del t2
+            except Exception:
+                control_ok = False
             del t, jar
             for n in range(1, min(n1, 40) + 1):
                 t, jar = stored()
@@ -195,6 +205,21 @@ def main():
                 c = check(t)
                 if c != 'ok':
                     mism.append(dict(w2, kind='unsound-after-fault', real=c))
+                # what the failed call did change is announced like any other change: after a commit a fresh reader sees the
+                # writer's tree.  (Left out: trees with a non-root single-leaf node - finding D18 - and calls whose fault-free
+                # run does not survive the commit either.)
+                try:
+                    after_p = P.proj(t, emb, is_set)
+                    if control_ok and not embeds_(after_p):
+                        jar.commit()
+                        t2 = minijar.Jar(jar.store).get(t._p_oid)
+                        counts['stored_commits'] = counts.get('stored_commits', 0) + 1
+                        rp = P.proj(t2, emb, is_set)
+                        if contents(rp) != contents(after_p) or check(t2) != 'ok':
+                            mism.append(dict(w2, kind='reader-differs-after-failed-call', model=contents(after_p), real=[contents(rp), check(t2)]))
+                        del t2
+                except Exception as e:
+                    mism.append(dict(w2, kind='commit-after-failed-call', real=repr(e)[:120]))
                 workload(t)
                 c = check(t)
                 if c != 'ok':
